@@ -228,6 +228,13 @@ func replayMain(args []string) {
 		die2("scenario for unknown property %q", sc.Property)
 	}
 	rep := p.Run(sc, *trace)
+	if sc.Expect != nil && sc.Expect.Class == "data-race" && !*quiet {
+		// the execution is identical every time; whether the race detector can still restore the older access's stack
+		// is not: give it a few executions (reports are only de-duplicated once made)
+		for a := 0; a < 12 && len(rep.Violations) == 0 && rep.HarnessErr == ""; a++ {
+			rep = p.Run(sc, *trace)
+		}
+	}
 	out := map[string]any{"event_hash": fmt.Sprintf("%016x", rep.EventHash), "violations": rep.Violations, "harness_err": rep.HarnessErr}
 	b, _ := json.Marshal(out)
 	fmt.Println("REPLAY-RESULT " + string(b))
